@@ -223,7 +223,7 @@ def doWire (kind param : String) (unitToks : List String) : String :=
     | _, _ => "bad-op"
   | "raw" =>
     match parseSlash param, unitToks.mapM parseParts with
-    | some [mc], some us => if mc > 1000000 then "bad-op" else "ok " ++ tokOfBytes ((us.map (fun m => (m.takeWhile (fun c => !c.isEmpty)).flatten)).flatten)
+    | some [mc], some us => if mc > 1000000 then "bad-op" else "ok " ++ tokOfBytes ((us.map (fun m => m.flatten)).flatten)
     | _, _ => "bad-op"
   | "slip" =>
     match parseSlash param, unitToks.mapM parseParts with
@@ -306,6 +306,16 @@ def doShare (enc a b s : String) : String :=
     if e > 9 then "bad-op" else "ok n=2,2 e=0,0"
   | _, _, _, _ => "bad-op"
 
+/-- `bigws`: `CreateReplyFrame` emits any size, but the receiver refuses an 8-byte length above 10 MB (`DoInputImplementation`,
+    B_RESOURCE_LIMIT): mirrored, open finding C03-ws-10mb -/
+def doBigWs (dir n : String) : String :=
+  match nat? dir, nat? n with
+  | some d, some n =>
+    if d > 1 ∨ n < 40 ∨ n > 67108864 then "bad-op"
+    else if 65535 < 8 + n ∧ 10485760 < 8 + n then "ok end=1/0 n=0"
+    else "ok end=0/1 n=1"
+  | _, _ => "bad-op"
+
 def step (_ : Unit) (toks : List String) : Unit × String :=
   match toks with
   | ["case", n] => ((), "case " ++ n)
@@ -313,6 +323,7 @@ def step (_ : Unit) (toks : List String) : Unit × String :=
   | "wire" :: kind :: param :: units => ((), doWire kind param units)
   | ["feed", kind, param, sched, hex] => ((), doFeed kind param sched hex)
   | ["share", enc, a, b, s] => ((), doShare enc a b s)
+  | ["bigws", dir, n] => ((), doBigWs dir n)
   | _ => ((), "bad-op")
 
 def engine : Engine := { σ := Unit, init := (), step := step }
